@@ -517,14 +517,53 @@ row('LIST.SET', ['C19'], touches=_typed, clauses=[
      '&& S1.exec == S0.exec && S1.float == S0.float && S1.floatvec == S0.floatvec && S1.intvec == S0.intvec && S1.name == S0.name)'),
     ('{C19,C10}unfired', 'S0.int.len() == 0 ==> (S1.bool == S0.bool && S1.boolvec == S0.boolvec && S1.code == S0.code && S1.exec == S0.exec '
      '&& S1.float == S0.float && S1.floatvec == S0.floatvec && S1.int == S0.int && S1.intvec == S0.intvec && S1.name == S0.name)')])
-# NEIGHBOR*: operands and which stack receives the result (geometry: C20)
+# NEIGHBOR*: operands, clamping, and the result (geometry: C20, Topology::find_neighbors' contract)
+# operand order on the INTEGER stack (top first): size, index, dimensions [, position below for *VALS: it is the 4th from the top]
+def _nb(base):
+    size = '(if top(S0.int, %d) < 0 { 0int } else { top(S0.int, %d) as int })' % (base, base)          # max(size, 0)
+    size_u = '(%s as usize)' % size
+    index = '(if top(S0.int, %d) < %s - 1 { if top(S0.int, %d) < 0 { 0 } else { top(S0.int, %d) as int } } else { if %s - 1 < 0 { 0 } else { %s - 1 } }) as usize' % (base + 1, size, base + 1, base + 1, size, size)
+    dims = '(if top(S0.int, %d) < %s { if top(S0.int, %d) < 0 { 0 } else { top(S0.int, %d) as int } } else { %s }) as usize' % (base + 2, size, base + 2, base + 2, size)
+    radius = 'f_max(top(S0.float, 0), 0.0f32)'
+    T = 'crate::push::topology::'
+    some = '(%sfn_params_valid(%s, %s, %s, %s) && %spowers_fit(%sedge_len(%s, %s), %s))' % (T, size_u, dims, index, radius, T, T, size_u, dims, dims)
+    nbs = '%sneighbours_upto(%sedge_len(%s, %s), %s, %s, %s, %s as nat)' % (T, T, size_u, dims, dims, index, radius, size_u)
+    return some, nbs
+_some3, _nbs3 = _nb(0)
 row('LIST.NEIGHBOR*IDS', ['C20'], takes=[('int', 3), ('float', 1)], touches=['intvec'], clauses=[
     ('fired.intvec', 'shrunk(S1.intvec, S0.intvec, 1) && S1.intvec.len() >= S0.intvec.len()'),
+    ('fired.neighbourhood-of-the-clamped-operands', '(S0.int.len() >= 3 && S0.float.len() >= 1 && %s) ==> (S1.intvec.len() == S0.intvec.len() + 1 && top(S1.intvec, 0).values@ == %s)' % (_some3, _nbs3)),
+    ('fired.no-result-for-invalid-topology', '(S0.int.len() >= 3 && S0.float.len() >= 1 && !%s) ==> S1.intvec == S0.intvec' % _some3),
     ('{C20,C10}unfired.intvec', '!(S0.int.len() >= 3 && S0.float.len() >= 1) ==> S1.intvec == S0.intvec')])
-for nm, st in [('LIST.NEIGHBOR*BVALS', 'boolvec'), ('LIST.NEIGHBOR*IVALS', 'intvec'), ('LIST.NEIGHBOR*FVALS', 'floatvec')]:
+FN_OVERLAYS['list::list_neighbor_ids'] = dict(attrs='#[verifier::loop_isolation(false)]\n', loops={0: '''
+            //bind R = let mut (\\w+) = vec!\\[\\];
+            //bind NBV = if let Some\\((\\w+)\\) =\\s*Topology::find_neighbors
+            invariant seq_i32(&$R).len() == $R@.len(), $R@ == $NBV.values@.subrange(0, ghost_iter.index@), ghost_iter.seq().len() == $NBV.values@.len(),
+                forall|k: int| 0 <= k < $NBV.values@.len() ==> *#[trigger] ghost_iter.seq()[k] == $NBV.values@[k],
+'''})
+_some4, _nbs4 = _nb(1)
+for nm, st, kind, seqw in [('LIST.NEIGHBOR*BVALS', 'boolvec', 'bool', 'seq_bool'), ('LIST.NEIGHBOR*IVALS', 'intvec', 'int', 'seq_i32'), ('LIST.NEIGHBOR*FVALS', 'floatvec', 'float', 'seq_f32')]:
     row(nm, ['C20'], takes=[('int', 4), ('float', 1)], touches=[st], clauses=[
         ('fired.%s' % st, 'shrunk(S1.%s, S0.%s, 1) && S1.%s.len() >= S0.%s.len()' % (st, st, st, st)),
+        # the position operand is `as usize`: a negative one addresses no point in practice (the default value) -- stated for the non-negative ones
+        ('fired.addressed-values-of-the-neighbourhood', '(S0.int.len() >= 4 && S0.float.len() >= 1 && top(S0.int, 0) >= 0 && %s) ==> (S1.%s.len() == S0.%s.len() + 1 '
+         '&& top(S1.%s, 0).values@ == crate::push::list::nvals_%s(S0.code, %s, top(S0.int, 0) as nat, %s.len()))' % (_some4, st, st, st, kind, _nbs4, _nbs4)),
+        ('fired.no-result-for-invalid-topology', '(S0.int.len() >= 4 && S0.float.len() >= 1 && !%s) ==> S1.%s == S0.%s' % (_some4, st, st)),
         ('{C20,C10}unfired.%s' % st, '!(S0.int.len() >= 4 && S0.float.len() >= 1) ==> S1.%s == S0.%s' % (st, st))])
+    FN_OVERLAYS['list::list_neighbor_%ss' % {'bool': 'bval', 'int': 'ival', 'float': 'fval'}[kind]] = dict(loops={0: '''
+            //bind R = let mut (\\w+) = vec!\\[\\];
+            //bind NBV = if let Some\\((\\w+)\\) =\\s*Topology::find_neighbors
+            //bind POS = let (\\w+) = topology\\[3\\] as usize;
+            invariant %s ghost_iter.seq().len() == $NBV.values@.len(), ghost_iter.index@ <= $NBV.values@.len(),
+                forall|k: int| 0 <= k < $NBV.values@.len() ==> *#[trigger] ghost_iter.seq()[k] == $NBV.values@[k],
+                forall|k: int| 0 <= k < $NBV.values@.len() ==> 0 <= #[trigger] $NBV.values@[k],
+                forall|j: int, k: int| 0 <= j < k < $NBV.values@.len() ==> $NBV.values@[j] < $NBV.values@[k],
+                $R@.len() <= ghost_iter.index@, $R@.len() <= push_state.code_stack@.len(),
+                $R@ == crate::push::list::nvals_%s(push_state.code_stack@, $NBV.values@, $POS as nat, ghost_iter.index@ as nat),
+''' % (('%s(&$R).len() == $R@.len(),' % seqw) if seqw else '', kind)},
+        proofs={'loop 0 start': '''            //bind NBV = if let Some\\((\\w+)\\) =\\s*Topology::find_neighbors
+            proof { crate::push::topology::lemma_ascending_ge_index($NBV.values@, ghost_iter.index@); }
+'''})
 
 # ------------------------------------------------------------------ C08: CODE list operations -- operand handling and footprint
 # (value clauses against the depth-first point functions are added in spec/code_rows below as they are proved)
@@ -709,6 +748,13 @@ for nm, x, need in [('BOOLVECTOR.RAND', 'boolvec', 'S0.int.len() >= 1 && S0.floa
     r = ROWS[nm]
     r.clauses.append(('{C15}bound.alloc', '(%s && S1.%s.len() == S0.%s.len() + 1) ==> top(S1.%s, 0).values@.len() <= 4' % (need, x, x, x)))
     r.props.append('C15')
+# NEIGHBOR*: IDS pushes one element per neighbour (up to the size OPERAND): bounded by operand magnitude only -> known finding;
+# *VALS push one value per neighbour that addresses an existing CODE item: at most CODE-stack-depth many (the neighbourhood itself is still computed)
+ROWS['LIST.NEIGHBOR*IDS'].clauses.append(('{C15}bound.alloc', '(S0.int.len() >= 3 && S0.float.len() >= 1 && S1.intvec.len() == S0.intvec.len() + 1) ==> top(S1.intvec, 0).values@.len() <= 5'))
+ROWS['LIST.NEIGHBOR*IDS'].props.append('C15')
+for nm, st in [('LIST.NEIGHBOR*BVALS', 'boolvec'), ('LIST.NEIGHBOR*IVALS', 'intvec'), ('LIST.NEIGHBOR*FVALS', 'floatvec')]:
+    ROWS[nm].clauses.append(('{C15}bound.alloc', '(S0.int.len() >= 4 && S0.float.len() >= 1 && S1.%s.len() == S0.%s.len() + 1) ==> top(S1.%s, 0).values@.len() <= S0.code.len()' % (st, st, st)))
+    ROWS[nm].props.append('C15')
 FN_OVERLAYS['graph::graph_node_state_switch']['loops'] = {0: '            invariant graph.wf(),\n'}
 
 # ---- C18: value clauses on top of the Graph model (state_of, nodes@, edges@) ----
